@@ -79,6 +79,8 @@ const (
 	gFp    // base-field element (a coordinate of a point)
 	gHash  // hash.Hash object: nil-ness known at translation time, state = the list of Writes since Reset
 	gByteT // the element type `byte` (only inside array / slice types)
+	gStr   // a string literal (challenge names), known at translation time
+	gFS    // *fiatshamir.Transcript: the data bound to each challenge so far, the challenges computed so far
 )
 
 type gfield struct {
@@ -144,6 +146,8 @@ type gv struct {
 	nat    string   // run-time gInt that is a length: the same value as a Lean Nat term
 	strs   []string // gHash: the byte strings written since Reset
 	dirty  bool     // gG: a coordinate was overwritten, the value is no longer a group element
+	spare  []cellID // gSlice: the cells between len and cap (append within the capacity writes them: aliasing as in Go)
+	strs2  []string // gFS: the challenges computed so far (byte-string terms)
 }
 
 type uparam struct {
@@ -183,7 +187,11 @@ type gpkg struct {
 	typeArgs         string            // explicit type arguments at calls of generated defs
 	fixedParams      string            // parameters every def takes first
 	fixedArgs        string
-	frIsCoord        bool // fr.Element is the coordinate field of the points (eddsa)
+	frIsCoord        bool              // fr.Element is the coordinate field of the points (eddsa)
+	inline           map[string]bool   // functions of the package that are executed in place (they return / write slices)
+	opaqueLenZero    bool              // the variadic dataTranscript is specialised to no data
+	lensNames        map[string]string // readable names of specialisations
+	subPkgs          map[string]*gpkg
 	hashNil          bool // this translation run: hash.Hash parameters are nil
 	nameSuffix       string
 	header           []string // extra defs at the head of the file (constants)
@@ -260,6 +268,23 @@ func (p *gpkg) loadFile(f *ast.File) {
 			}
 		}
 	}
+}
+
+// subPkg: another gnark-crypto package whose types are used here (kzg.Digest, kzg.VerifyingKey)
+func (p *gpkg) subPkg(name, file string) *gpkg {
+	if p.subPkgs == nil {
+		p.subPkgs = map[string]*gpkg{}
+	}
+	if q, ok := p.subPkgs[name]; ok {
+		return q
+	}
+	dir, ok := p.importDir(name)
+	if !ok {
+		reject("%s: package %s is not imported", p.label, name)
+	}
+	q := loadGroupPkg(p.label+"/"+name, dir, file)
+	p.subPkgs[name] = q
+	return q
 }
 
 // importDir: the repository directory of an imported gnark-crypto package
@@ -341,6 +366,8 @@ func (p *gpkg) typeOf(e ast.Expr) *gtype {
 			return &gtype{k: gBool}
 		case "byte":
 			return &gtype{k: gByteT}
+		case "string":
+			return &gtype{k: gStr}
 		}
 		te, ok := p.types[e.Name]
 		if !ok {
@@ -376,6 +403,10 @@ func (p *gpkg) typeOf(e ast.Expr) *gtype {
 			return &gtype{k: gG2}
 		case p.isCurveImport(x.Name) && e.Sel.Name == "LineEvaluationAff":
 			return &gtype{k: gLineElt}
+		case x.Name == "kzg":
+			return p.subPkg("kzg", "kzg.go").typeOf(e.Sel)
+		case x.Name == "fiatshamir" && e.Sel.Name == "Transcript":
+			return &gtype{k: gFS}
 		case x.Name == "fr" && e.Sel.Name == "Element" && p.frIsCoord:
 			return &gtype{k: gFp} // eddsa packages: fr is the field the twisted Edwards curve is defined over
 		case x.Name == "fr" && e.Sel.Name == "Element":
@@ -448,22 +479,24 @@ func (s *gscope) lookup(n string) (cellID, bool) {
 }
 
 type gtr struct {
-	p          *gpkg
-	v          *gvariant
-	store      map[cellID]*gv
-	names      map[cellID]string
-	ro         map[cellID]bool
-	next       cellID
-	lines      []string
-	counter    map[string]int
-	nSite      int
-	fname      string
-	ptrTargets []cellID                     // targets of the pointer parameters, in parameter order
-	ptrOwner   map[cellID]int               // cell (any depth below a pointer target) -> index in ptrTargets
-	written    map[int]bool                 // pointer targets written by the body
-	inout      []int                        // second pass: the targets returned after the results
-	coords     map[cellID]map[string]cellID // coordinate cells of a point variable
-	coordOf    map[cellID]cellID            // coordinate cell -> its point
+	p           *gpkg
+	v           *gvariant
+	store       map[cellID]*gv
+	names       map[cellID]string
+	ro          map[cellID]bool
+	next        cellID
+	lines       []string
+	counter     map[string]int
+	nSite       int
+	fname       string
+	ptrTargets  []cellID                     // targets of the pointer parameters, in parameter order
+	ptrOwner    map[cellID]int               // cell (any depth below a pointer target) -> index in ptrTargets
+	written     map[int]bool                 // pointer targets written by the body
+	inout       []int                        // second pass: the targets returned after the results
+	coords      map[cellID]map[string]cellID // coordinate cells of a point variable
+	coordOf     map[cellID]cellID            // coordinate cell -> its point
+	retHook     func([]*gv)                  // non-nil while a function is executed in place
+	inlineDepth int
 }
 
 func (x *gtr) markOwner(c cellID, idx int) {
@@ -846,6 +879,9 @@ func (x *gtr) eval(s *gscope, e ast.Expr) *gv {
 				return mkInt(n)
 			}
 		}
+		if e.Kind == token.STRING {
+			return &gv{t: &gtype{k: gStr}, static: true, term: e.Value}
+		}
 		reject("%s: literal %s", x.fname, e.Value)
 	case *ast.Ident:
 		switch e.Name {
@@ -908,6 +944,20 @@ func (x *gtr) eval(s *gscope, e ast.Expr) *gv {
 		v := x.eval(s, e.X)
 		if e.Low == nil && e.High == nil && e.Max == nil && (v.t.k == gL || v.t.k == gBytes) {
 			return v
+		}
+		if v.t.k == gSlice && e.Max == nil {
+			lo, hi := 0, len(v.elems)
+			if e.Low != nil {
+				lo = x.staticInt(s, e.Low)
+			}
+			if e.High != nil {
+				hi = x.staticInt(s, e.High)
+			}
+			if lo < 0 || hi < lo || hi > len(v.elems)+len(v.spare) {
+				reject("%s: slice bounds out of range in %s: the Go code panics here", x.fname, gexpr(e))
+			}
+			all := append(append([]cellID(nil), v.elems...), v.spare...)
+			return &gv{t: v.t, elems: all[lo:hi], spare: all[hi:]}
 		}
 		if v.t.k == gBytes && e.Max == nil {
 			// NOTE: Go panics when hi > cap; List.take / List.drop truncate. The callers establish the length first.
@@ -1307,7 +1357,7 @@ func (x *gtr) method(s *gscope, recv cellID, name string, c *ast.CallExpr) []*gv
 
 func (x *gtr) call(s *gscope, c *ast.CallExpr) []*gv {
 	nilErr := &gv{t: &gtype{k: gErr}, static: true, n: 0}
-	if c.Ellipsis.IsValid() {
+	if c.Ellipsis.IsValid() && gexpr(c.Fun) != "append" {
 		// f(a, b, rest...) : only with an opaque variadic tail
 		last := x.eval(s, c.Args[len(c.Args)-1])
 		if last.t.k != gOpaque {
@@ -1329,11 +1379,36 @@ func (x *gtr) call(s *gscope, c *ast.CallExpr) []*gv {
 				}
 				return []*gv{{t: &gtype{k: gInt}, term: fmt.Sprintf("(Int.ofNat %s.length)", gparen(v.term)), nat: gparen(v.term) + ".length"}}
 			}
+			if v.t.k == gOpaque && x.p.opaqueLenZero {
+				return []*gv{mkInt(0)} // dataTranscript: this specialisation passes no extra data
+			}
 			if v.t.k != gSlice && v.t.k != gArray {
 				reject("%s: len of %s", x.fname, gexpr(c.Args[0]))
 			}
 			return []*gv{mkInt(len(v.elems))}
+		case "append":
+			return []*gv{x.appendCall(s, c)}
 		case "make":
+			if len(c.Args) == 3 {
+				t := x.p.typeOf(c.Args[0])
+				if t.k != gSlice {
+					reject("%s: make with a capacity of a non-slice", x.fname)
+				}
+				n, cp := x.staticInt(s, c.Args[1]), x.staticInt(s, c.Args[2])
+				if cp < n {
+					reject("%s: make: cap < len", x.fname)
+				}
+				v := &gv{t: t}
+				for i := 0; i < cp; i++ {
+					cell := x.zero(fmt.Sprintf("mk_%d", i), t.elem)
+					if i < n {
+						v.elems = append(v.elems, cell)
+					} else {
+						v.spare = append(v.spare, cell)
+					}
+				}
+				return []*gv{v}
+			}
 			x.nargs(c, 2)
 			t := x.p.typeOf(c.Args[0])
 			if t.k == gBytes {
@@ -1386,6 +1461,9 @@ func (x *gtr) call(s *gscope, c *ast.CallExpr) []*gv {
 		}
 		if _, ok := s.lookup(f.Name); ok {
 			reject("%s: call of a function value %s", x.fname, f.Name)
+		}
+		if fd, ok := x.p.funcs[f.Name]; ok && x.p.inline[f.Name] {
+			return x.inlineFn(s, fd, f.Name, c)
 		}
 		if fd, ok := x.p.funcs[f.Name]; ok {
 			return x.callFn(s, fd, f.Name, nil, c)
@@ -1777,6 +1855,9 @@ func (x *gtr) ifStmt(s *gscope, st *ast.IfStmt, rest func() string) string {
 		return x.exec(&gscope{vars: map[string]cellID{}, parent: inner}, elseStmts(), rest)
 	}
 	// run-time condition: the then-branch must return
+	if x.retHook != nil {
+		reject("%s: run-time `if %s` inside a function executed in place", x.fname, gexpr(st.Cond))
+	}
 	saved := x.cloneStore()
 	thenS := x.capture(func() string {
 		return x.exec(&gscope{vars: map[string]cellID{}, parent: inner}, st.Body.List, func() string {
@@ -1954,6 +2035,22 @@ func (x *gtr) assignStmt(s *gscope, st *ast.AssignStmt) {
 }
 
 func (x *gtr) ret(s *gscope, st *ast.ReturnStmt) string {
+	if x.retHook != nil {
+		// inside a function executed in place: hand the values to the call site, the statements after the call go on
+		var vals []*gv
+		if len(st.Results) == 1 {
+			if c, ok := st.Results[0].(*ast.CallExpr); ok {
+				vals = x.call(s, c)
+			}
+		}
+		if vals == nil {
+			for _, r := range st.Results {
+				vals = append(vals, x.eval(s, r))
+			}
+		}
+		x.retHook(vals)
+		return ""
+	}
 	var vals []*gv
 	if len(st.Results) == 1 && len(x.v.rtypes) > 1 {
 		c, ok := st.Results[0].(*ast.CallExpr)
@@ -2012,6 +2109,9 @@ func lensKey(lens []int) string {
 
 func (p *gpkg) translate(key string, lens []int) *gvariant {
 	name := strings.ReplaceAll(key, ".", "_") + lensKey(lens)
+	if n, ok := p.lensNames[name]; ok {
+		name = n
+	}
 	if fd, ok := p.funcs[key]; ok && p.nameSuffix != "" {
 		// the hash / no-hash specialisation only concerns functions that take a hash.Hash
 		for _, fl := range fd.Type.Params.List {
@@ -2198,6 +2298,19 @@ func (p *gpkg) checkNewSRSLines() string {
 		seen[0]+seen[1], strings.ReplaceAll(fmt.Sprint([]int{seen[0], seen[1]}), " ", ", "))
 }
 
+const shClasses = groupClasses + " [_root_.Inv S]"
+
+// shplonk shapes: points per polynomial
+var shShapes = [][]int{{1}, {2}, {1, 1}, {2, 1}, {2, 2}}
+
+func shapeName(sh []int) string {
+	ss := make([]string, len(sh))
+	for i, n := range sh {
+		ss[i] = strconv.Itoa(n)
+	}
+	return "_s" + strings.Join(ss, "")
+}
+
 const sigClasses = "{G Fp : Type} [_root_.Add G] [_root_.Sub G] [_root_.Neg G] [_root_.Zero G] [_root_.SMul Int G] [_root_.Add Fp] [_root_.Sub Fp] [_root_.Mul Fp] [_root_.Inv Fp] [_root_.Zero Fp] [_root_.BEq Fp]"
 
 var ecdsaCurves = []string{"bn254", "bls12-377", "bls12-381", "bls24-315", "bls24-317", "bw6-633", "bw6-761", "secp256k1", "stark-curve", "grumpkin"}
@@ -2278,6 +2391,26 @@ func runGroup() {
 			p.hashNil, p.nameSuffix = true, "_nohash"
 			p.translate("PublicKey.Verify", nil)
 			p.emit("ecdsa_"+lc, "Ecdsa_"+lc+".lean", "")
+		})
+	}
+	for _, c := range groupCurves {
+		lc := strings.ReplaceAll(c, "-", "_")
+		guard("shplonk "+c, func() {
+			p := loadGroupPkg("shplonk_"+lc, "ecc/"+c+"/shplonk", "shplonk.go")
+			p.classes = shClasses
+			p.opaqueLenZero = true
+			p.inline = map[string]bool{"deriveChallenge": true, "flatten": true, "eval": true, "mulByConstant": true, "multiplyLinearFactor": true,
+				"buildZtMinusSi": true, "buildVanishingPoly": true, "interpolate": true, "buildLagrangeFromDomain": true}
+			for _, sh := range shShapes {
+				// parameter order: proof.ClaimedValues [][] , digests [], points [][]
+				lens := []int{len(sh)}
+				lens = append(lens, sh...)
+				lens = append(lens, len(sh), len(sh))
+				lens = append(lens, sh...)
+				p.lensNames = map[string]string{"BatchVerify" + lensKey(lens): "BatchVerify" + shapeName(sh)}
+				p.translate("BatchVerify", lens)
+			}
+			p.emit("shplonk_"+lc, "Shplonk_"+lc+".lean", "")
 		})
 	}
 	for _, d := range eddsaDirs {
